@@ -18,7 +18,19 @@ use serde_json::json;
 use std::str::FromStr;
 use std::sync::Arc;
 
-const N_OPS: u64 = 10;
+const N_OPS: u64 = 15;
+
+/// material prepared once per backend for the wrapping operations: password-wrapped copies of the shared local key
+/// (password, PASERK text), a key pair for sealing (v1: RSA-4096 from the corpus), an unrelated recipient key, and the
+/// shared local key sealed to the first
+#[derive(Clone)]
+pub struct Extra {
+    pub pw: Vec<(Vec<u8>, String)>,
+    pub pke_sk: Vec<u8>,
+    pub pke_pk: Vec<u8>,
+    pub pke_other: Vec<u8>,
+    pub sealed: String,
+}
 
 /// result of one operation, canonicalised
 type Out = Result<String, String>;
@@ -26,7 +38,7 @@ type Out = Result<String, String>;
 macro_rules! backend_runner {
     ($fname:ident, $V:ty, $aad:expr) => {
         /// keys: (local, secret, public); returns per-thread result lists
-        fn $fname(local: &[u8], sk: &[u8], threads: usize, ops_per_thread: usize, seed: u64, history: bool, first_use: bool) -> (Vec<Vec<(u64, Out)>>, Vec<Vec<(u64, Out)>>) {
+        fn $fname(local: &[u8], sk: &[u8], extra: &Extra, threads: usize, ops_per_thread: usize, seed: u64, history: bool, first_use: bool) -> (Vec<Vec<(u64, Out)>>, Vec<Vec<(u64, Out)>>) {
             type LK = Key<$V, Local>;
             type SK = Key<$V, Secret>;
             type PK = Key<$V, Public>;
@@ -37,8 +49,12 @@ macro_rules! backend_runner {
                 good_local: String,
                 good_public: String,
                 nonce: Vec<u8>,
+                pke_sk: Key<$V, paseto_core::version::PkeSecret>,
+                pke_pk: Key<$V, paseto_core::version::PkePublic>,
+                pke_other: Key<$V, paseto_core::version::PkeSecret>,
+                extra: Extra,
             }
-            fn mk(local: &[u8], sk: &[u8]) -> Shared {
+            fn mk(local: &[u8], sk: &[u8], extra: &Extra) -> Shared {
                 let lk: LK = key_from::<$V, Local>(local).expect("local key");
                 let skk: SK = key_from::<$V, Secret>(sk).expect("secret key");
                 let pk = skk.public_key();
@@ -46,7 +62,10 @@ macro_rules! backend_runner {
                 let nonce: Vec<u8> = (0..32u8).collect();
                 let good_local = UnsealedToken::<$V, Local, Raw>::new(Raw(b"payload".to_vec())).with_footer(b"f".to_vec()).seal(&lk, a).expect("seal").to_string();
                 let good_public = UnsealedToken::<$V, Public, Raw>::new(Raw(b"payload".to_vec())).with_footer(b"f".to_vec()).seal(&skk, a).expect("sign").to_string();
-                Shared { lk, sk: skk, pk, good_local, good_public, nonce }
+                let pke_sk = key_from::<$V, paseto_core::version::PkeSecret>(&extra.pke_sk).expect("pke secret key");
+                let pke_pk = key_from::<$V, paseto_core::version::PkePublic>(&extra.pke_pk).expect("pke public key");
+                let pke_other = key_from::<$V, paseto_core::version::PkeSecret>(&extra.pke_other).expect("other pke secret key");
+                Shared { lk, sk: skk, pk, good_local, good_public, nonce, pke_sk, pke_pk, pke_other, extra: extra.clone() }
             }
             /// the same keys as objects that have never been used: parsed from bytes only (the public key from
             /// its own bytes, not derived), tokens taken from another copy
@@ -54,7 +73,10 @@ macro_rules! backend_runner {
                 let lk: LK = key_from::<$V, Local>(local).expect("local key");
                 let skk: SK = key_from::<$V, Secret>(sk).expect("secret key");
                 let pk: PK = key_from::<$V, Public>(&key_bytes(&donor.pk)).expect("public key");
-                Shared { lk, sk: skk, pk, good_local: donor.good_local.clone(), good_public: donor.good_public.clone(), nonce: donor.nonce.clone() }
+                let pke_sk = key_from::<$V, paseto_core::version::PkeSecret>(&donor.extra.pke_sk).expect("pke secret key");
+                let pke_pk = key_from::<$V, paseto_core::version::PkePublic>(&donor.extra.pke_pk).expect("pke public key");
+                let pke_other = key_from::<$V, paseto_core::version::PkeSecret>(&donor.extra.pke_other).expect("other pke secret key");
+                Shared { lk, sk: skk, pk, good_local: donor.good_local.clone(), good_public: donor.good_public.clone(), nonce: donor.nonce.clone(), pke_sk, pke_pk, pke_other, extra: donor.extra.clone() }
             }
             /// the same token with one character of its payload segment changed (third from the end of the segment, so
             /// that the text stays canonical base64 and the change reaches the tag / signature check)
@@ -112,6 +134,32 @@ macro_rules! backend_runner {
                             let k = paseto_core::paserk::PieWrappedKey::<$V, Local>::from_str(&w.to_string())?.unwrap(&s.lk)?;
                             if key_bytes(&k) == key_bytes(&s.lk) { "pie round trip".into() } else { "pie: WRONG KEY".into() }
                         }
+                        10 => {
+                            // password unwrap of one of several wrapped copies (different salts) with its own password
+                            let (pass, text) = &s.extra.pw[i as usize % s.extra.pw.len()];
+                            let k = paseto_core::paserk::PasswordWrappedKey::<$V, Local>::from_str(text)?.unwrap(pass)?;
+                            if key_bytes(&k) == key_bytes(&s.lk) { "pw unwrap".into() } else { "pw unwrap: WRONG KEY".into() }
+                        }
+                        11 => {
+                            let n = s.extra.pw.len();
+                            let (_, text) = &s.extra.pw[i as usize % n];
+                            let (wrong, _) = &s.extra.pw[(i as usize + 1) % n];
+                            paseto_core::paserk::PasswordWrappedKey::<$V, Local>::from_str(text)?.unwrap(wrong)?;
+                            "ACCEPTED WRONG PASSWORD".into()
+                        }
+                        12 => {
+                            let w = s.lk.clone().seal(&s.pke_pk)?.to_string();
+                            let k = paseto_core::paserk::SealedKey::<$V>::from_str(&w)?.unseal(&s.pke_sk)?;
+                            if key_bytes(&k) == key_bytes(&s.lk) { "seal round trip".into() } else { "seal: WRONG KEY".into() }
+                        }
+                        13 => {
+                            let k = paseto_core::paserk::SealedKey::<$V>::from_str(&s.extra.sealed)?.unseal(&s.pke_sk)?;
+                            if key_bytes(&k) == key_bytes(&s.lk) { "unseal".into() } else { "unseal: WRONG KEY".into() }
+                        }
+                        14 => {
+                            paseto_core::paserk::SealedKey::<$V>::from_str(&s.extra.sealed)?.unseal(&s.pke_other)?;
+                            "ACCEPTED WRONG RECIPIENT".into()
+                        }
                         _ => {
                             // wrong-kind / malformed inputs against the shared keys (all must fail, none may disturb the key)
                             SealedToken::<$V, Local, Raw, Vec<u8>>::from_str(&s.good_public)?.unseal(&s.lk, a, &NoValidation::dangerous_no_validation())?;
@@ -127,7 +175,7 @@ macro_rules! backend_runner {
             }
             // building the key set signs and seals once on THIS thread; after a history of rejected operations on it that
             // must still work (if it does not, that is the violation, not a harness error)
-            let donor = match std::panic::catch_unwind(|| mk(local, sk)) {
+            let donor = match std::panic::catch_unwind(|| mk(local, sk, extra)) {
                 Ok(d) => d,
                 Err(_) => return (vec![vec![(98, Err("building a fresh key set and signing with it failed on this thread".into()))]], vec![vec![(98, Ok(String::new()))]]),
             };
@@ -167,9 +215,9 @@ macro_rules! backend_runner {
                         .map(|&(c, i)| {
                             // a fresh copy of the keys on a fresh thread: no state of any earlier operation,
                             // neither in the key objects nor in thread-local storage
-                            let (l2, s2, gl, gp) = (local.to_vec(), sk.to_vec(), shared.good_local.clone(), shared.good_public.clone());
+                            let (l2, s2, gl, gp, ex) = (local.to_vec(), sk.to_vec(), shared.good_local.clone(), shared.good_public.clone(), shared.extra.clone());
                             let r = std::thread::spawn(move || {
-                                let mut fresh = mk(&l2, &s2);
+                                let mut fresh = mk(&l2, &s2, &ex);
                                 fresh.good_local = gl;
                                 fresh.good_public = gp;
                                 op(&fresh, c, i)
@@ -214,7 +262,7 @@ backend_runner!(run_v4s, V4S, true);
 
 pub fn run(ctx: &Ctx) {
     let mut rep = Report::new("C17", &ctx.tier, ctx.seed);
-    rep.rule = "per backend one key set shared through Arc by 2, 4, 8, 16 threads, each performing a seeded random list of: sign+verify, verify good / corrupted token, dangerous_seal_with_nonce (deterministic), decrypt good / corrupted token, clone+sign+drop, Display / id / expose, wrap_pie round trip, wrong-purpose unseal; every result compared with the sequential oracle (the same operation on a fresh copy); the oracle runs every operation on a fresh copy of the keys AND on a fresh thread (no key state, no thread-local state); each operation also has a verdict the property fixes (good tokens verify, corrupted ones fail); the same plans also run as single-thread histories on one key object (failed operations interleaved with successful ones); many short rounds of 8 threads released together by a barrier make the first use of key objects that were only parsed; clone / drop storms (8 threads x 20000 clones of the shared secret, public and local key) on fresh key sets, the key used afterwards; distinct = (backend, thread count, operation, outcome)".into();
+    rep.rule = "per backend one key set shared through Arc by 2, 4, 8, 16 threads, each performing a seeded random list of: sign+verify, verify good / corrupted token, dangerous_seal_with_nonce (deterministic), decrypt good / corrupted token, clone+sign+drop, Display / id / expose, wrap_pie round trip, wrong-purpose unseal, password unwrap of six wrapped copies with the right and with a wrong password, seal + unseal, unseal of a fixed sealed key by its recipient and by an unrelated recipient key; every result compared with the sequential oracle (the same operation on a fresh copy); the oracle runs every operation on a fresh copy of the keys AND on a fresh thread (no key state, no thread-local state); each operation also has a verdict the property fixes (good tokens verify, corrupted ones fail); the same plans also run as single-thread histories on one key object (failed operations interleaved with successful ones); many short rounds of 8 threads released together by a barrier make the first use of key objects that were only parsed; clone / drop storms (8 threads x 20000 clones of the shared secret, public and local key) on fresh key sets, the key used afterwards; distinct = (backend, thread count, operation, outcome)".into();
     let bs = lab::backends();
     let mut g = SplitMix64::new(ctx.seed ^ 0xC17);
     let thorough = ctx.thorough();
@@ -222,6 +270,34 @@ pub fn run(ctx: &Ctx) {
         let kps = tok::keypairs(b, &mut g, 1);
         let sk = kps[0].sk.clone();
         let local = g.bytes(32);
+        // material for the wrapping operations
+        let extra = {
+            let mut pw = vec![];
+            for j in 0..6u8 {
+                let pass = format!("password-{j}").into_bytes();
+                let params = crate::c05::cheap_params(b, &mut g);
+                match (b.pw_wrap)("local", &pass, Some(&params), &local) {
+                    Ok(t) => pw.push((pass, t)),
+                    Err(e) => rep.notes.push(format!("{}: password wrap for the C17 material failed: {e}", b.name)),
+                }
+            }
+            let (pke_sk, pke_pk, pke_other) = if b.name == "v1" {
+                use rsa::pkcs1::DecodeRsaPrivateKey;
+                use rsa::pkcs8::spki::EncodePublicKey;
+                let ders = tok::corpus_rsa_keys(4096);
+                let pk = rsa::RsaPrivateKey::from_pkcs1_der(&ders[0]).unwrap().to_public_key().to_public_key_der().unwrap().into_vec();
+                (ders[0].clone(), pk, ders[1].clone())
+            } else {
+                let other = tok::keypairs(b, &mut g, 1);
+                (sk.clone(), kps[0].pk.clone(), other.iter().find(|k| k.sk != sk).map(|k| k.sk.clone()).unwrap_or_else(|| other[0].sk.clone()))
+            };
+            let sealed = (b.pke_seal)(&pke_pk, &local).unwrap_or_default();
+            Extra { pw, pke_sk, pke_pk, pke_other, sealed }
+        };
+        if extra.pw.is_empty() || extra.sealed.is_empty() {
+            rep.notes.push(format!("{}: wrapping material incomplete; wrapping operations would be vacuous", b.name));
+            continue;
+        }
         let thread_counts: Vec<usize> = if b.name == "v1" && !thorough { vec![2, 8] } else { vec![2, 4, 8, 16] };
         let per_thread = if b.name == "v1" { if thorough { 60 } else { 12 } } else if thorough { 2000 } else { 120 };
         // (history?, first use?, thread counts, operations per thread): long mixed runs on a warmed-up key set,
@@ -237,12 +313,12 @@ pub fn run(ctx: &Ctx) {
             for &tc in &tcs {
                 let seed = if per_thread == 0 { if b.name == "v1" { 300 } else if thorough { 50_000 } else { 20_000 } } else { g.next() };
                 let (got, oracle) = match b.name {
-                    "v1" => run_v1(&local, &sk, tc, per_thread, seed, mode, first_use),
-                    "v2" => run_v2(&local, &sk, tc, per_thread, seed, mode, first_use),
-                    "v3" => run_v3(&local, &sk, tc, per_thread, seed, mode, first_use),
-                    "v3-aws-lc" => run_v3l(&local, &sk, tc, per_thread, seed, mode, first_use),
-                    "v4" => run_v4(&local, &sk, tc, per_thread, seed, mode, first_use),
-                    _ => run_v4s(&local, &sk, tc, per_thread, seed, mode, first_use),
+                    "v1" => run_v1(&local, &sk, &extra, tc, per_thread, seed, mode, first_use),
+                    "v2" => run_v2(&local, &sk, &extra, tc, per_thread, seed, mode, first_use),
+                    "v3" => run_v3(&local, &sk, &extra, tc, per_thread, seed, mode, first_use),
+                    "v3-aws-lc" => run_v3l(&local, &sk, &extra, tc, per_thread, seed, mode, first_use),
+                    "v4" => run_v4(&local, &sk, &extra, tc, per_thread, seed, mode, first_use),
+                    _ => run_v4s(&local, &sk, &extra, tc, per_thread, seed, mode, first_use),
                 };
                 for (t, (g_t, o_t)) in got.iter().zip(oracle.iter()).enumerate() {
                     if g_t.len() != o_t.len() {
@@ -253,7 +329,7 @@ pub fn run(ctx: &Ctx) {
                         rep.evaluations += 1;
                         let what = if mode { "single-thread history" } else if first_use { "concurrent first use" } else { "concurrent use" };
                         // what the property itself demands of each operation, whatever the oracle says
-                        let must_succeed = !matches!(*c, 2 | 5 | 9);
+                        let must_succeed = !matches!(*c, 2 | 5 | 9 | 11 | 14);
                         if must_succeed != gr.is_ok() {
                             rep.violation(&format!("c17.{}.bad-result.op{c}", b.name), format!("{} {what} ({tc} threads): operation {c} #{j} of thread {t} gave {:?}; it must {}", b.name, gr, if must_succeed { "succeed" } else { "fail" }), json!({"backend": b.name, "threads": tc, "seed": seed, "history": mode, "first_use": first_use, "op": c}));
                         } else if gr != or {
